@@ -143,7 +143,7 @@ bool EthernetII::matches_response(const uint8_t* ptr, uint32_t total_sz) const {
     }
     const ethernet_header* eth_ptr = (const ethernet_header*)ptr;
     if (address_type(header_.src_mac) == address_type(eth_ptr->dst_mac)) {
-        if (address_type(header_.src_mac) == address_type(eth_ptr->dst_mac) || 
+        if (address_type(header_.dst_mac) == address_type(eth_ptr->src_mac) || 
            !dst_addr().is_unicast()) {
             return inner_pdu() ? 
                    inner_pdu()->matches_response(ptr + sizeof(header_), total_sz - sizeof(header_)) : 
